@@ -235,6 +235,54 @@ def floats(F, res, reach):
     res.count("functions using floating point on the quantity path", len(by_fn))
 
 
+def defaulted(F, res, reach):
+    """DEFAULTED: the failure of a checked numeric operation (`T::try_from(n)`, `n.try_into()`, `checked_*`, `str::parse`) must
+    not be turned into a default value (`.ok().unwrap_or_default()`, `.unwrap_or(0)`, `.unwrap_or_else(..)`): the out-of-range
+    quantity then silently becomes 0 (or the fallback) instead of failing the operation."""
+    CHECKED = ("try_from", "try_into", "parse")
+    n = 0
+    for p in sorted(reach):
+        f = F.built.get(p, F.fns.get(p))
+        if f is None or is_derive(f) or f["crate"] not in ("tx3_cardano", "tx3_tir", "tx3_resolver", "tx3_lang"):
+            continue
+        du = None
+        for bi, t in mir.calls(f):
+            c = t.get("callee") or ""
+            last = c.split("::")[-1]
+            if last not in ("unwrap_or_default", "unwrap_or", "unwrap_or_else") or not t["args"] or site_in_derive(t.get("exp", "")):
+                continue
+            if not (c.startswith("std::option::Option") or c.startswith("std::result::Result")):
+                continue
+            du = du or mir.DefUse(f)
+            src = mir.provenance(f, du, t["args"][0], transparent_extra=("std::result::Result::<T, E>::ok",))
+            INTS = ("usize", "u64", "i64", "u32", "i128", "u128", "u8", "u16", "i32")
+            hit = [o for o in src if o.kind == "call" and (o.callee.split("::")[-1] in CHECKED or o.callee.split("::")[-1].startswith("checked_"))
+                   and any(x in " ".join(o.term.get("gargs") or []) + f["locals"][t["dest"]["l"]] for x in INTS)]
+            if not hit:
+                # `.and_then(|n| usize::try_from(n).ok()).unwrap_or_default()`: the checked conversion sits in the closure of an
+                # Option / Result adaptor that feeds the defaulting call
+                for o in src:
+                    if o.kind == "call" and o.callee.split("::")[-1] in ("and_then", "map", "map_or", "then") and f["locals"][t["dest"]["l"]] in INTS:
+                        for fr in o.term.get("fnrefs") or []:
+                            g = F.fns.get(fr)
+                            if g is None:
+                                continue
+                            for _, t2 in mir.calls(g):
+                                l2 = (t2.get("callee") or "").split("::")[-1]
+                                if l2 in CHECKED or l2.startswith("checked_"):
+                                    hit = [mir.Origin("call", callee=t2.get("callee"), term=t2, bb=0)]
+            if not hit:
+                continue
+            n += 1
+            key = "%s|%s after %s" % (p, last, hit[0].callee.split("::")[-1])
+            rows = {r["key"]: r["reason"] for r in table("e4_rows").get("defaulted", [])}
+            if key in rows:
+                res.add([ok("DEFAULTED", key, where(f, t["line"]), "D-TABLE: " + rows[key])])
+            else:
+                res.add([finding("DEFAULTED", key, where(f, t["line"]), "the failure of `%s` is replaced by a default value (`%s`): a quantity that does not fit silently becomes the fallback instead of failing" % (hit[0].callee.split("::")[-1], last))])
+    res.count("defaulted checked conversions", n)
+
+
 def drop_rule(F, res):
     # the function that merges two amount maps with the checked addition - found by role (it calls SafeAdd::try_add and is
     # not an impl of it), whatever its name
@@ -362,6 +410,7 @@ def run(ctx):
     res.rule("DROP", "the None of a checked add must not flow into a removal")
     res.rule("SUBID", "subtraction never returns its subtrahend unchanged")
     res.rule("MERGE", "quantity-bearing maps are combined by aggregation, never by overwrite")
+    res.rule("DEFAULTED", "the failure of a checked numeric conversion is never replaced by a default value")
     res.rule("FLOAT", "no quantity passes through floating point (tabled: the candidate ranking of the vector selector)")
     res.rule("BIGNUM", "negative bignums carry -1 - n")
     cg = CallGraph(F)
@@ -374,6 +423,7 @@ def run(ctx):
     sub_identity(F, res)
     merge_rule(F, res, reach)
     floats(F, res, reach)
+    defaulted(F, res, reach)
     # integers that leave the 64-bit range are encoded as CBOR bignums: the negative form carries -1 - n (rule shared with C09)
     from . import c09
     r3 = Result("C02")
